@@ -141,7 +141,7 @@ CHECKS = {
                  extra={"pkg/kube_events_manager": ["zz_verif_hub.go"]}, instrument={"files": KEM_INSTR}, gomaxprocs=1),
             part("kemrace", "pkg/kube_events_manager", "TestVerifRaceKEM", ["zz_verif_race_test.go", "zz_verif_hubconf_test.go", "zz_verif_c01_test.go"], shards={"quick": 6, "thorough": 12},
                  extra={"pkg/kube_events_manager": ["zz_verif_hub.go"]}, instrument={"files": KEM_INSTR}, race=True, gomaxprocs=4),
-            part("c01l2", "pkg/shell-operator", "TestVerifC01L2", ["zz_verif_c01_test.go", "zz_verif_c03_test.go", "zz_verif_fixture_test.go"], shards={"quick": 9, "thorough": 9},
+            part("c01l2", "pkg/shell-operator", "TestVerifC01L2", ["zz_verif_c01_test.go", "zz_verif_c03_test.go", "zz_verif_fixture_test.go"], shards={"quick": 10, "thorough": 13},
                  extra=OP_EXTRA, instrument=OP_INSTR, gomaxprocs=1),
         ],
     },
